@@ -205,14 +205,15 @@ def tag_obj(c, tclass, num, constructed):
 SAMPLE_TAGS = [(2, 0, True), (2, 2, False), (1, 5, False), (3, 30, True), (2, 31, False), (1, 1000, True)]
 
 
-def some_tag(c, prefix="tag", allow_none=True):
+def some_tag(c, prefix="tag", allow_none=True, few=False):
     """None (the type's universal tag is used) or one of a few explicit tags of the other classes, incl. tag numbers
     above 30. (Full generality over class / number / constructed is proved in _pack_asn1 and _read_asn1_header; the
     typed readers and writers only pass the tag through.)"""
-    k = c.ctx.choose(len(SAMPLE_TAGS) + (1 if allow_none else 0), prefix)
-    if allow_none and k == len(SAMPLE_TAGS):
+    tags = SAMPLE_TAGS[:2] if few else SAMPLE_TAGS
+    k = c.ctx.choose(len(tags) + (1 if allow_none else 0), prefix)
+    if allow_none and k == len(tags):
         return None
-    tc, num, cons = SAMPLE_TAGS[k]
+    tc, num, cons = tags[k]
     return tag_obj(c, tc, num, cons)
 
 
@@ -230,9 +231,9 @@ def tlv(c, ident, content):
 
 
 # ================================================================================================ INTEGER (X.690 8.3)
-def int_case(c, v, label="int_octets"):
+def int_case(c, v, label="int_octets", max_octets=None):
     """case split on the number m of content octets of the minimal two's complement encoding of v (1..MAX_INT_OCTETS)"""
-    m = 1 + c.ctx.choose(MAX_INT_OCTETS, label)
+    m = 1 + c.ctx.choose(max_octets or MAX_INT_OCTETS, label)
     hi = 2 ** (8 * m - 1)
     conj = [Z(v) >= -hi, Z(v) < hi]
     if m > 1:
@@ -379,3 +380,257 @@ def _constructed(name, universal):
 
 _constructed("sequence", 16)
 _constructed("set", 17)
+
+
+# ================================================================================================ base-128 numbers, OBJECT IDENTIFIER (X.690 8.19)
+@REG.contract("dpapi_ng._asn1._pack_asn1_octet_number", props=["C07"], inline=True)
+def pack_octet_number(c):
+    num = c.param("num", T.int(1, 2**63 - 1))  # used for tag numbers >= 31
+    d = b128_case(c, num)
+    c.returns(b128_rope(c, num, d))
+    c.raises_only(set())
+    c.loop(0, unroll=MAX_B128 + 1)
+
+
+@REG.contract("dpapi_ng._asn1._unpack_asn1_octet_number", props=["C07"], inline=True)
+def unpack_octet_number(c):
+    num = c.fresh(T.int(0, 2**63 - 1), "num")
+    d = b128_case(c, num)
+    rest = c.fresh(T.Bytes, "rest")
+    c.param("data", T.const(SBytes(c.rope(b128_rope(c, num, d), rest).rope, "memoryview")))
+    c.returns((num, d))
+    c.raises_only(set())
+
+
+from pyvc.smt import Str, str_lit  # noqa: E402
+from pyvc.values import STRCAT, SStr  # noqa: E402
+
+STR_OF_INT = z3.Function("STR_OF_INT", z3.IntSort(), Str)  # canonical decimal representation (str(n))
+
+
+def dotted(arcs):
+    t = STR_OF_INT(Z(arcs[0]))
+    for a in arcs[1:]:
+        t = STRCAT(STRCAT(t, str_lit(".")), STR_OF_INT(Z(a)))
+    return SStr(t)
+
+
+OID_EXTRA_ARCS = bound(3, 4)
+OID_ARC_DIGITS = bound(3, 5)
+
+
+def oid_fresh(c):
+    """A valid object identifier: first arc 0..2, second arc 0..39, then 0..OID_EXTRA_ARCS arcs; returns (arcs, content
+    rope). Case split on the base-128 length of every sub-identifier."""
+    a0 = c.fresh(T.int(0, 2), "arc0")
+    a1 = c.fresh(T.int(0, 39), "arc1")
+    if c.ctx.branch(z3.Bool("one_long_arc")):
+        extra = [c.fresh(T.int(0, 2**63 - 1), "arc2")]
+        digs = [b128_case(c, extra[0], "arc2_digits")]
+    else:
+        n = c.ctx.choose(OID_EXTRA_ARCS + 1, "n_arcs")
+        extra = [c.fresh(T.int(0, 128**OID_ARC_DIGITS - 1), f"arc{i + 2}") for i in range(n)]
+        digs = [b128_case(c, x, f"arc{i + 2}_digits", OID_ARC_DIGITS) for i, x in enumerate(extra)]
+    first = 40 * Z(a0) + Z(a1)
+    content = c.rope(c.le(first, 1), *[b128_rope(c, x, d) for x, d in zip(extra, digs)])
+    return [a0, a1] + extra, content
+
+
+@REG.contract("dpapi_ng._asn1._encode_object_identifier", props=["C07"], inline=True)
+def encode_oid(c):
+    arcs, content = oid_fresh(c)
+    c.param("oid", T.const(dotted(arcs)))
+    c.returns(content)
+    c.raises_only(set())
+    c.loop(1, unroll=MAX_B128 + 1)
+
+
+@REG.contract("dpapi_ng._asn1._pack_asn1_object_identifier", props=["C07"], inline=True)
+def pack_oid(c):
+    arcs, content = oid_fresh(c)
+    c.param("value", T.const(dotted(arcs)))
+    tag = c.param("tag", T.const(some_tag(c)))
+    c.returns(tlv(c, tag_ident(c, tag, 6), content))
+    c.raises_only(set())
+    c.loop(1, target="dpapi_ng._asn1._encode_object_identifier", unroll=MAX_B128 + 1)
+
+
+@REG.contract("dpapi_ng._asn1._read_asn1_object_identifier", props=["C07"], inline=True)
+def read_oid(c):
+    arcs, content = oid_fresh(c)
+    tag = some_tag(c)
+    rest = c.fresh(T.Bytes, "rest")
+    enc = tlv(c, tag_ident(c, tag, 6), content)
+    c.param("data", T.const(SBytes(c.rope(enc, rest).rope, "memoryview")))
+    c.param("tag", T.const(tag))
+    c.returns((dotted(arcs), c.len(enc)))
+    c.raises_only(set())
+
+
+# ================================================================================================ ASN1Reader: exact consumption, nesting, concatenation
+def reader_obj(c, rope_value):
+    v = SBytes(c.I.rope_of(rope_value), "memoryview")
+    return SObj(cls_(c, "ASN1Reader"), {"_data": v, "_view": v})
+
+
+def _value_case(c, prefix):
+    """one DER value of a type the reader supports: (method name, extra args, expected result, TLV rope)"""
+    kind = c.ctx.choose(6, prefix + ".kind")
+    tag = some_tag(c, prefix + ".tag", few=True)
+    if kind == 0:
+        v = c.fresh(T.Int, prefix + ".int")
+        m = int_case(c, v, prefix + ".octets", 3)  # the typed decoders are proved for all sizes; here only framing matters
+        return "read_integer", tag, v, tlv(c, tag_ident(c, tag, 2), derint_rope(c, v, m))
+    if kind == 1:
+        v = c.fresh(T.Bytes, prefix + ".octets")
+        return "read_octet_string", tag, v, tlv(c, tag_ident(c, tag, 4), v)
+    if kind == 2:
+        v = c.fresh(T.Str, prefix + ".text")
+        return "read_utf8_string", tag, v, tlv(c, tag_ident(c, tag, 12), c.I.encode(v, "utf-8"))
+    if kind == 3:
+        v = bool(c.ctx.branch(z3.Bool(prefix + ".bool")))
+        return "read_boolean", tag, v, tlv(c, tag_ident(c, tag, 1), c.rope(b"\xff" if v else b"\x00"))
+    if kind == 4:
+        v = c.fresh(T.Str, prefix + ".time")
+        return "read_generalized_time", tag, v, tlv(c, tag_ident(c, tag, 24), c.I.encode(v, "utf-8"))
+    inner = c.fresh(T.Bytes, prefix + ".content")
+    return "read_sequence", tag, inner, tlv(c, tag_ident(c, tag, 16, True), inner)
+
+
+def _reader_method(method):
+    def spec(c):
+        """read_X returns the encoded value and leaves exactly the bytes after the TLV in the reader"""
+        while True:
+            name, tag, want, enc = _value_case(c, "v")
+            if name == method:
+                break
+            raise PathEnd()
+        rest = c.fresh(T.Bytes, "rest")
+        rd = reader_obj(c, c.rope(enc, rest))
+        c.param("self", T.const(rd))
+        c.param("tag", T.const(tag))
+        c.raises_only(set())
+        if method == "read_sequence":
+            c.ensures("returns-a-reader-over-exactly-the-content", lambda r: isinstance(r, SObj) and r.cls.name == "ASN1Reader" and c.eq(SBytes(c.I.rope_of(r.fields["_view"])), want))
+        else:
+            c.returns(want)
+        c.post("consumes-exactly-the-encoded-bytes", lambda: c.eq(SBytes(c.I.rope_of(rd.fields["_view"])), rest))
+
+    return spec
+
+
+for _m in ("read_integer", "read_octet_string", "read_utf8_string", "read_boolean", "read_generalized_time", "read_sequence"):
+    REG.contract(f"dpapi_ng._asn1.ASN1Reader.{_m}", props=["C07"], inline=True)(_reader_method(_m))
+
+
+@REG.contract("dpapi_ng._asn1.ASN1Reader.read_object_identifier", props=["C07"], inline=True)
+def reader_read_oid(c):
+    arcs, content = oid_fresh(c)
+    tag = some_tag(c)
+    rest = c.fresh(T.Bytes, "rest")
+    rd = reader_obj(c, c.rope(tlv(c, tag_ident(c, tag, 6), content), rest))
+    c.param("self", T.const(rd))
+    c.param("tag", T.const(tag))
+    c.returns(dotted(arcs))
+    c.raises_only(set())
+    c.post("consumes-exactly-the-encoded-bytes", lambda: c.eq(SBytes(c.I.rope_of(rd.fields["_view"])), rest))
+
+
+@REG.variant("dpapi_ng._asn1.ASN1Reader.read_set", "set", props=["C07"])
+def reader_read_set(c):
+    tag = some_tag(c)
+    inner = c.fresh(T.Bytes, "content")
+    rest = c.fresh(T.Bytes, "rest")
+    rd = reader_obj(c, c.rope(tlv(c, tag_ident(c, tag, 17, True), inner), rest))
+    c.param("self", T.const(rd))
+    c.param("tag", T.const(tag))
+    c.raises_only(set())
+    c.ensures("returns-a-reader-over-exactly-the-content", lambda r: isinstance(r, SObj) and c.eq(SBytes(c.I.rope_of(r.fields["_view"])), inner))
+    c.post("consumes-exactly-the-encoded-bytes", lambda: c.eq(SBytes(c.I.rope_of(rd.fields["_view"])), rest))
+
+
+@REG.contract("dpapi_ng._asn1.ASN1Reader.peek_header", props=["C07"], inline=True)
+def reader_peek(c):
+    """peek_header describes the next TLV and consumes nothing; skip_value then consumes exactly that TLV"""
+    name, tag, want, enc = _value_case(c, "v")
+    rest = c.fresh(T.Bytes, "rest")
+    whole = c.rope(enc, rest)
+    rd = reader_obj(c, whole)
+    c.param("self", T.const(rd))
+    c.raises_only(set())
+
+    def ok(h):
+        hl = Z(h.fields["tag_length"]) + Z(h.fields["length"])
+        return [hl == Z(c.len(enc)), c.eq(SBytes(c.I.rope_of(rd.fields["_view"])), whole)]
+
+    c.ensures("header-spans-exactly-the-next-value-and-nothing-is-consumed", ok)
+
+
+@REG.variant("dpapi_ng._asn1.ASN1Reader.read_integer", "concatenation", props=["C07"])
+def reader_concat(c):
+    """Reading the concatenation of three encoded values returns them in order and leaves nothing: composition of the
+    exact-consumption contracts (values of any supported type; driven through the public reader methods)."""
+    vals = [_value_case(c, f"v{i}") for i in range(2)]
+    if vals[0][0] != "read_integer":
+        raise PathEnd()
+    rd = reader_obj(c, c.rope(*[e for _, _, _, e in vals]))
+    c.param("self", T.const(rd))
+    c.param("tag", T.const(vals[0][1]))
+    c.returns(vals[0][2])
+    c.raises_only(set())
+
+    def rest_reads_back():
+        name, tag, want, enc = vals[1]
+        m = c.I.getattr(rd, name)
+        got = c.I.call_value(m, [], {"tag": tag})
+        if name == "read_sequence":
+            ok = c.eq(SBytes(c.I.rope_of(got.fields["_view"])), want)
+        else:
+            ok = c.eq(got, want)
+        return [ok, c.Not(c.I.truth(rd))]  # bool(reader) is False: nothing left over
+
+    c.post("second-value-follows-and-nothing-is-left", rest_reads_back)
+
+
+# ================================================================================================ ASN1Writer: nesting
+@REG.contract("dpapi_ng._asn1.ASN1Writer.__exit__", props=["C07"], inline=True)
+def writer_exit(c):
+    """Closing a nested writer appends TLV(tag, everything written into it) to its parent - to any depth, because the
+    same contract applies to the parent when it is closed."""
+    tag = some_tag(c, allow_none=False)
+    before = c.fresh(T.bytes(kind="bytearray"), "parent_data")
+    inner = c.fresh(T.bytes(kind="bytearray"), "child_data")
+    parent = SObj(cls_(c, "ASN1Writer"), {"_data": before, "_tag": None, "_parent": None})
+    child = SObj(cls_(c, "ASN1Writer"), {"_data": inner, "_tag": tag, "_parent": parent})
+    old = SBytes(R.Rope(before.rope.segs))
+    old_inner = SBytes(R.Rope(inner.rope.segs))
+    c.param("self", T.const(child))
+    c.raises_only(set())
+    c.post("parent-gets-the-tlv-of-the-child", lambda: c.eq(parent.fields["_data"], c.rope(old, tlv(c, tag_ident(c, tag, 0), old_inner))))
+
+
+@REG.contract("dpapi_ng._asn1.ASN1Writer.write_integer", props=["C07"], inline=True)
+def writer_write_integer(c):
+    v = c.param("value", T.Int)
+    tag = c.param("tag", T.const(some_tag(c, few=True)))
+    m = int_case(c, v, max_octets=3)
+    before = c.fresh(T.bytes(kind="bytearray"), "data")
+    w = SObj(cls_(c, "ASN1Writer"), {"_data": before, "_tag": None, "_parent": None})
+    old = SBytes(R.Rope(before.rope.segs))
+    c.param("self", T.const(w))
+    c.raises_only(set())
+    c.post("appends-exactly-the-tlv", lambda: c.eq(w.fields["_data"], c.rope(old, tlv(c, tag_ident(c, tag, 2), derint_rope(c, v, m)))))
+
+
+@REG.contract("dpapi_ng._asn1.ASN1Writer.push_sequence", props=["C07"], inline=True)
+def writer_push_sequence(c):
+    tag = c.param("tag", T.const(some_tag(c)))
+    w = SObj(cls_(c, "ASN1Writer"), {"_data": c.fresh(T.bytes(kind="bytearray"), "data"), "_tag": None, "_parent": None})
+    c.param("self", T.const(w))
+    c.raises_only(set())
+
+    def ok(r):
+        want_tag = tag if tag is not None else tag_obj(c, 0, 16, True)
+        return [r.fields["_parent"] is w, c.eq(r.fields["_tag"], want_tag), Z(c.len(r.fields["_data"])) == 0]
+
+    c.ensures("child-writer-with-the-sequence-tag", ok)
